@@ -31,22 +31,111 @@ FINISH = dict(
          "every attempt returned, each task's recorded lock sequence is WellOrdered (hypothesis of "
          "deadlock_free), mutual exclusion respected in the global trace, successful newAccount per "
          "(account, endpoint) <= 1 + accountDoesNotExist answers + binding changes, nonces on one endpoint "
-         "pairwise distinct across certificates. non-trivial = at least one shared account or endpoint.",
+         "pairwise distinct across certificates. non-trivial = at least one shared account or endpoint. "
+         "Added dimensions (all counted in `distribution`): every mode is run on the fixed sharing patterns 8 "
+         "certificates/1 account/1 endpoint, 8/1/3, 8/3/1, 2/1/1, 4 certificates = 2 accounts x 2 endpoints fully "
+         "crossed, 3 disjoint (quick: two per mode chosen by the seed) before the random patterns; certificates "
+         "have 1..4 identifiers and every CA serves a random subset of the authorizations as already valid (also "
+         "a whole certificate); per CA: response delay bound 0/5/25/80 ms, 0/1/3 authorization polls and 0/2 "
+         "order polls before the awaited status, or 25 / never (more than DEFAULT_POOL_NB_TRIES: exactly those "
+         "attempts must return as failures); start offsets 0/50/120/400 ms per certificate in every mode, one "
+         "certificate's challenge hook sleeping 100..300 ms, file hooks on the accounts (run by Account::save "
+         "under the account write lock). Mode errors: badNonce with and without Replay-Nonce, serverInternal, "
+         "unauthorized (as many attempts fail as such answers were served) and successes without Replay-Nonce "
+         "at random positions of newOrder/authz/challenge/order/finalize/cert/newAccount, half of the CAs "
+         "without nonces on GET. Mode amnesia: accounts forgotten together with a contact / key change (the "
+         "update request of synchronize is the one refused), by one CA only, for one account key only, and a "
+         "CA refusing every newOrder with accountDoesNotExist (every attempt returns failed). "
+         "accountDoesNotExist answers are counted per account key, so a key the CA still knows has no allowance.",
 )
 
 
-def build_scenario(rng, idx, mode):
-    ncert = rng.randint(2, 8)
-    nacc = rng.randint(1, 3)
-    nep = rng.randint(1, 3)
+MODES = ["first", "forgotten", "changes", "dropped", "binding", "staggered", "errors", "amnesia"]
+# fixed sharing patterns (account index, endpoint index per certificate) run before the random ones
+CORNERS = {"8c-1a-1e": [(0, 0)] * 8,
+           "8c-1a-3e": [(0, c % 3) for c in range(8)],
+           "8c-3a-1e": [(c % 3, 0) for c in range(8)],
+           "2c-1a-1e": [(0, 0)] * 2,
+           "4c-2ax2e-crossed": [(a, e) for a in range(2) for e in range(2)],
+           "3c-disjoint": [(c, c) for c in range(3)]}
+AMNESIA = ["forgotten+contacts", "forgotten-one-ca", "forgotten+key", "forgotten-one-account", "amnesia-persistent"]
+ERR_KINDS = ["newOrder", "authz", "challenge", "order", "finalize", "cert", "newAccount"]
+ERR_HOWS = ["badNonce", "badNonce-no-nonce", "serverInternal", "unauthorized", "ok-no-nonce"]
+POOL_TRIES = 20                    # DEFAULT_POOL_NB_TRIES: a CA that needs more polls makes the attempt give up
+NEVER = (25, 10 ** 6)              # both > POOL_TRIES
+SLOW_KEYS = ("polls_before_valid", "order_polls_before_valid")
+
+
+def build_scenario(rng, idx, mode, corner=None, k=0, slow=False):
+    if corner:
+        shape = CORNERS[corner]
+        ncert, nacc, nep = len(shape), 1 + max(a for a, _ in shape), 1 + max(e for _, e in shape)
+    else:
+        ncert = rng.randint(2, 8)
+        nacc = rng.randint(1, 3)
+        nep = rng.randint(1, 3)
+        shape = [(rng.randrange(nacc), rng.randrange(nep)) for _ in range(ncert)]
+    if mode == "staggered":      # everybody on ONE endpoint
+        nep, shape = 1, [(a, 0) for a, _ in shape]
     certs = []
-    for c in range(ncert):
-        certs.append({"name": "crt%d" % c, "account": "acc%d" % rng.randrange(nacc), "endpoint": "ep%d" % rng.randrange(nep),
-                      "identifiers": [{"dns": "c%d.example.org" % c, "challenge": rng.choice(["http-01", "dns-01"])}],
+    for c, (a, e) in enumerate(shape):
+        # 1..4 identifiers: the loop over authorizations runs several times per attempt
+        certs.append({"name": "crt%d" % c, "account": "acc%d" % a, "endpoint": "ep%d" % e,
+                      "identifiers": [{"dns": "c%d-%d.example.org" % (c, i), "challenge": rng.choice(["http-01", "dns-01"])}
+                                      for i in range(rng.choice([1, 1, 1, 2, 2, 3, 4]))],
                       "key_type": "ecdsa_p256"})
-    return {"idx": idx, "mode": mode, "ncert": ncert, "nacc": nacc, "nep": nep, "certs": certs,
-            "threads": rng.choice([1, 2, 4, 16]), "delay": rng.choice([0, 5, 25]),
-            "contacts": ["a@example.org"], "key_type": "ecdsa_p256"}
+    sc = {"idx": idx, "mode": mode, "ncert": ncert, "nacc": nacc, "nep": nep, "certs": certs,
+          "threads": rng.choice([1, 2, 4, 16]), "delay": rng.choice([0, 5, 25]),
+          "contacts": ["a@example.org"], "key_type": "ecdsa_p256", "corner": corner}
+    # ---- per CA: response delays, slow validation, authorizations that are valid from the start
+    sc["ca"] = []
+    for j in range(nep):
+        names = [i["dns"] for c in certs if c["endpoint"] == "ep%d" % j for i in c["identifiers"]]
+        sc["ca"].append({"rand_delay": rng.choice([0, 5, 25, 80]),
+                         "polls_before_valid": rng.choice([0, 0, 1, 3]),
+                         "order_polls_before_ready": rng.choice([0, 0, 2]),
+                         "order_polls_before_valid": rng.choice([0, 0, 2]),
+                         "prevalid": sorted(n for n in names if rng.random() < 0.3)})
+    if rng.random() < 0.4:       # a certificate ALL of whose authorizations are valid already
+        c = rng.choice(certs)
+        o = sc["ca"][int(c["endpoint"][2:])]
+        o["prevalid"] = sorted(set(o["prevalid"]) | {i["dns"] for i in c["identifiers"]})
+    if mode != "errors" and (slow or rng.random() < 0.2):
+        # more polls needed than the client makes: every attempt that has to wait for this CA must give up
+        rng.choice(sc["ca"])[rng.choice(SLOW_KEYS)] = rng.choice(NEVER)
+    # ---- timing: late starters, one slow challenge hook, hooks run by Account::save under the account write lock
+    sc["stagger"] = [120 * c for c in range(ncert)] if mode == "staggered" else \
+        [rng.choice([0, 0, 50, 120, 400]) for _ in range(ncert)]
+    sc["slow_hook"] = [rng.randrange(ncert), rng.choice([100, 200, 300])] if rng.random() < 0.5 else None
+    sc["acc_hooks"] = rng.random() < 0.4
+    if mode == "errors":
+        # error answers (and answers without Replay-Nonce) at random request positions of every CA
+        for j, o in enumerate(sc["ca"]):
+            on = [c for c in certs if c["endpoint"] == "ep%d" % j]
+            # (positions that exist: one newOrder / finalize / cert request per attempt, one newAccount per account)
+            top = dict({k: max(len(on) - 1, 0) for k in ("newOrder", "finalize", "cert")},
+                       newAccount=max(len({c["account"] for c in on}) - 1, 0))
+            pos, h0 = {}, rng.randrange(len(ERR_HOWS))
+            for r in range(rng.randint(2, 6)):
+                kind = rng.choice(ERR_KINDS)
+                pos[(kind, rng.randrange(top.get(kind, 2 * len(on)) + 1))] = ERR_HOWS[(h0 + r) % len(ERR_HOWS)]
+            o["errors"] = sorted([kd, n, how] for (kd, n), how in pos.items())
+            o["nonce_on_get"] = rng.random() < 0.5
+    if mode == "amnesia":
+        sc["amnesia"] = [AMNESIA[(3 * k + i) % len(AMNESIA)] for i in range(3)]    # two scenarios cover all five
+    return sc
+
+
+def expected_failures(sc):
+    """Certificates whose attempt has to give up: their CA needs more polls than DEFAULT_POOL_NB_TRIES."""
+    out = set()
+    for c in sc["certs"]:
+        o = (sc.get("ca") or [{}] * sc["nep"])[int(c["endpoint"][2:])]
+        if o.get("order_polls_before_valid", 0) > POOL_TRIES or \
+                (o.get("polls_before_valid", 0) > POOL_TRIES
+                 and any(i["dns"] not in o.get("prevalid", []) for i in c["identifiers"])):
+            out.add(c["name"])
+    return out
 
 
 EAB_KEY = "MDEyMzQ1Njc4OWFiY2RlZjAxMjM0NTY3ODlhYmNkZWY"   # base64url of 32 bytes
@@ -55,15 +144,48 @@ EAB_KEY = "MDEyMzQ1Njc4OWFiY2RlZjAxMjM0NTY3ODlhYmNkZWY"   # base64url of 32 byte
 def write_cfg(root, sc, cas, contacts, key_type, eab=False):
     log = os.path.join(root, "hooks.log")
     hooks = [flow.recorder_hook("rec-" + t, t, log) for t in flow.HOOK_TYPES if not t.startswith("file-")]
+    # hooks of the account files: Account::save runs them while the account write lock is held
+    acc_hooks = [flow.recorder_hook("acc-" + t, t, log) for t in flow.HOOK_TYPES if t.startswith("file-")] \
+        if sc.get("acc_hooks") else []
+    slow = sc.get("slow_hook")
+    extra = [{"name": "slow-challenge", "type": ["challenge-http-01", "challenge-dns-01"], "cmd": "sh",
+              "args": ["-c", "sleep %.1f" % (slow[1] / 1000.0)]}] if slow else []
     cfg = {"global": {"accounts_directory": os.path.join(root, "accounts"),
                       "certificates_directory": os.path.join(root, "certs")},
            "endpoint": [{"name": "ep%d" % j, "url": cas[j].base + "/directory", "tos_agreed": True} for j in range(sc["nep"])],
-           "hook": hooks, "group": [{"name": "rec-all", "hooks": [h["name"] for h in hooks]}],
+           "hook": hooks + acc_hooks + extra, "group": [{"name": "rec-all", "hooks": [h["name"] for h in hooks]}],
            "account": [dict({"name": "acc%d" % i, "contacts": [{"mailto": m} for m in contacts], "key_type": key_type},
-                            **({"external_account": {"identifier": "kid-1", "key": EAB_KEY}} if eab else {}))
+                            **dict({"external_account": {"identifier": "kid-1", "key": EAB_KEY}} if eab else {},
+                                   **({"hooks": [h["name"] for h in acc_hooks]} if acc_hooks else {})))
                        for i in range(sc["nacc"])],
-           "certificate": [dict(c, hooks=["rec-all"]) for c in sc["certs"]]}
+           "certificate": [dict(c, hooks=["rec-all"] + (["slow-challenge"] if slow and slow[0] == n else []))
+                           for n, c in enumerate(sc["certs"])]}
     return cfggen.write(os.path.join(root, "acmed.toml"), cfg)
+
+
+def error_rules(ca, errors):
+    """Rules of mode `errors`: [kind, nth, how] -> an answer served instead of / on top of the conforming one."""
+    answers = {"badNonce": ca.problem(400, "badNonce"),                              # retried with the nonce of the answer
+               "badNonce-no-nonce": dict(ca.problem(400, "badNonce"), nonce="none"),  # retried after a newNonce request
+               "serverInternal": ca.problem(500, "serverInternal"),                  # retried
+               "unauthorized": ca.problem(403, "unauthorized"),                      # fatal: the attempt fails
+               "ok-no-nonce": {"process": True, "nonce": "none"}}                    # success without Replay-Nonce
+    return [{"kind": kind, "nth": nth, "label": "err:" + how, "answer": answers[how]} for kind, nth, how in errors]
+
+
+def forget(cas, what, pick):
+    """The CAs lose accounts (answer accountDoesNotExist to their kid from now on): all of them, those of one CA,
+    or those of ONE account key (on every CA that knows it)."""
+    key = None
+    if what == "forgotten-one-account":
+        keys = sorted({json.dumps(a["jwk"], sort_keys=True) for ca in cas for a in ca.accounts.values()
+                       if not a.get("forgotten")})
+        key = keys[pick % len(keys)] if keys else None
+    for ca in (cas[:1] if what == "forgotten-one-ca" else cas):
+        with ca.lock:
+            for a in ca.accounts.values():
+                if key is None or json.dumps(a["jwk"], sort_keys=True) == key:
+                    a["forgotten"] = True
 
 
 def run_rounds(sc, root, helper):
@@ -84,9 +206,15 @@ def run_rounds(sc, root, helper):
             # a sibling completes POSTs (consuming nonces) while another attempt's directory request is open
             rules = [{"kind": "directory", "from": 1, "times": 10 ** 6, "answer": {"process": True, "delay_ms": 350}}]
             opts["nonce_on_get"] = False       # (a GET answer with a fresh nonce would paper over a stale one)
+        o = sc["ca"][j] if sc.get("ca") else {}
+        for k in ("polls_before_valid", "order_polls_before_ready", "order_polls_before_valid", "nonce_on_get"):
+            if k in o:
+                opts[k] = o[k]
+        opts["authz_status"] = {n: "valid" for n in o.get("prevalid", [])}
         ca = mockca.MockCA(helper, rules=rules, opts=opts)
+        ca.rules += error_rules(ca, o.get("errors", []))
         ca.o["delay_ms"] = 0
-        ca.rand_delay = sc["delay"]
+        ca.rand_delay = o.get("rand_delay", sc["delay"])
         ca.start()
         cas.append(ca)
     # seeded per-response delays
@@ -115,12 +243,25 @@ def run_rounds(sc, root, helper):
                     ("binding-removed", sc["contacts"], sc["key_type"]),
                     ("binding-removed-again", sc["contacts"], sc["key_type"]),
                     ("binding-added", sc["contacts"], sc["key_type"])]
+        contacts, kt = sc["contacts"], sc["key_type"]
+        for what in (sc.get("amnesia") or []) if sc["mode"] == "amnesia" else []:
+            # accounts forgotten AND the configuration changed in the same round: the update request of synchronize
+            # is the one answered accountDoesNotExist (re-registration under the account write lock)
+            if what == "forgotten+contacts":
+                contacts = ["b@example.org"] + contacts
+            if what == "forgotten+key":
+                kt = "ecdsa_p384"
+            plan.append((what, contacts, kt))
         for what, contacts, kt in plan:
-            if what == "forgotten":
-                for ca in cas:
-                    with ca.lock:
-                        for a in ca.accounts.values():
-                            a["forgotten"] = True
+            if what.startswith("forgotten"):
+                forget(cas, what, sc["idx"])
+            # a CA that has lost the account for good: every newOrder is answered accountDoesNotExist, also the one
+            # after the re-registration (the attempt must give up, not register for ever)
+            persistent = [{"kind": "newOrder", "times": 10 ** 6, "label": "amnesia-persistent",
+                           "answer": ca.problem(400, "accountDoesNotExist")} for ca in cas] \
+                if what == "amnesia-persistent" else []
+            for ca, r in zip(cas, persistent):
+                ca.rules.append(r)
             # certificates must be due again: remove them
             cdir = os.path.join(d, "certs")
             if os.path.isdir(cdir):
@@ -130,20 +271,71 @@ def run_rounds(sc, root, helper):
             marks = [len(ca.log) for ca in cas]
             cfg_path = write_cfg(d, sc, cas, contacts, kt, eab=what in ("first-with-binding", "binding-added"))
             stagger = [120 * k for k in range(sc["ncert"])] if sc["mode"] == "staggered" else []
+            stagger = sc.get("stagger", stagger)
+            # (attempts that go on registering for ever keep logging lock events: there the overall bound decides)
             res = vlib.probe([{"op": "concurrent_attempts", "path": cfg_path, "threads": sc["threads"], "stagger_ms": stagger,
-                               "timeout_ms": 60000, "max_ms": 600000}], timeout=700)[0]
+                               "timeout_ms": 30000 if persistent else 60000,
+                               "max_ms": 60000 if persistent else 600000}], timeout=700)[0]
+            for ca, r in zip(cas, persistent):
+                ca.rules.remove(r)
             rounds.append({"what": what, "res": res, "index": len(rounds),
-                           "ca_logs": [ca.log[m:] for ca, m in zip(cas, marks)]})
+                           "ca_logs": [ca.log[m:] for ca, m in zip(cas, marks)],
+                           # account URL -> account key on record at the CA (whose accountDoesNotExist was it?)
+                           "kid_keys": [{u: json.dumps(a["jwk"], sort_keys=True) for u, a in list(ca.accounts.items())}
+                                        for ca in cas]})
     finally:
         for ca in cas:
             ca.stop()
     return rounds
 
 
+def dne_key(r, kid_keys):
+    """The account key an accountDoesNotExist answer was about: the key on record for the request's kid; for a key
+    roll-over the NEW key (the one the re-registration presents).  None = unknown (then it counts for every key)."""
+    if kid_keys is None:
+        return None
+    try:
+        if r["rk"] == "keyChange":
+            inner = json.loads(r["payload"])
+            return json.dumps(json.loads(mockca.b64u_dec(inner["protected"]).decode())["jwk"], sort_keys=True)
+    except Exception:
+        return None
+    return kid_keys.get((r.get("hdr") or {}).get("kid"))
+
+
+FAIL_FREE_ROUNDS = ("first", "forgotten", "first-with-binding",
+                    "forgotten+contacts", "forgotten-one-ca", "forgotten+key", "forgotten-one-account")
+
+
+def harness_clause(ctx, sc, rnd, res, robj):
+    """Not C12 clauses, but a dead harness would hide everything: attempts fail exactly where the scenario makes
+    them fail (a CA needing more polls than the client makes, a fatal error answer, a CA that has lost the account for
+    good) and nowhere else."""
+    name = {t["task"]: t["certificate"].split("_")[0] for t in res["tasks"]}
+    failed = {name[r["task"]] for r in res["results"] if not r["ok"]}
+    detail = dict(robj, results=res["results"])
+    if rnd["what"] == "amnesia-persistent":
+        if len(failed) < len(res["tasks"]):
+            ctx.broke("harness", "attempts succeeded although every newOrder was refused", detail)
+    elif sc["mode"] == "dropped" or rnd["what"] not in FAIL_FREE_ROUNDS:
+        pass
+    elif sc["mode"] == "errors":
+        fatal = sum(1 for log in rnd["ca_logs"] for e in log if e["kind"] == "req" and e.get("rule") == "err:unauthorized")
+        if len(failed) != fatal:
+            ctx.broke("harness", "%d attempts failed, %d fatal error answers were served" % (len(failed), fatal), detail)
+    elif failed - expected_failures(sc):
+        ctx.broke("harness", "attempts failed against a conforming CA", detail)
+    elif expected_failures(sc) - failed:
+        ctx.broke("harness", "attempts succeeded although their CA needs more polls than DEFAULT_POOL_NB_TRIES", detail)
+
+
+SC_KEYS = ("idx", "mode", "ncert", "nacc", "nep", "certs", "threads", "delay",
+           "corner", "ca", "stagger", "slow_hook", "acc_hooks", "amnesia")
+
+
 def judge_round(ctx, sc, rnd):
     res = rnd["res"]
-    robj = {"scenario": {k: sc[k] for k in ("idx", "mode", "ncert", "nacc", "nep", "certs", "threads", "delay")},
-            "round": rnd["what"]}
+    robj = {"scenario": {k: sc[k] for k in SC_KEYS if k in sc}, "round": rnd["what"]}
     if not isinstance(res, dict) or "events" not in res:
         ctx.violation("concurrent attempts crashed: %s" % str(res)[:300], dict(robj, impl=res))
         return
@@ -168,22 +360,28 @@ def judge_round(ctx, sc, rnd):
         nonces.append([r["hdr"]["nonce"] for r in reqs if r["method"] == "POST" and "hdr" in r and "nonce" in r["hdr"]])
         # group by account key (jwk of newAccount / kid of the others): newAccount successes per key
         created = {}
-        dne = 0
+        dne, dne_any = {}, 0
+        kid_keys = (rnd.get("kid_keys") or [None] * (j + 1))[j]
         for r in reqs:
             a = ans.get(r["gidx"], {})
             if r["rk"] == "newAccount" and a.get("status") in (200, 201):
                 k = json.dumps(r["hdr"].get("jwk"), sort_keys=True)
                 created[k] = created.get(k, 0) + 1
             if a.get("problem") == "accountDoesNotExist":
-                dne += 1
+                k = dne_key(r, kid_keys)
+                dne[k] = dne.get(k, 0) + 1
+                dne_any += k is None
+            if str(r.get("rule", "")).startswith("err:"):
+                ctx.count("error-answer:%s@%s" % (r["rule"][4:], r["rk"]))
         # a round in which the configured binding differs from the one the account was registered with may
         # register once more per (account, endpoint); a round that keeps it may not
         nbind = 1 if rnd["what"] in ("binding-removed", "binding-added") else 0
         # start allowance: in the first round a pair may have to register; in a later round every pair in
         # use was registered in the round before (Props/C12Reg.register_once_from_start)
-        base = 1 if rnd.get("index", 0) == 0 or sc["mode"] == "dropped" else 0
+        base = 1 if rnd.get("index", 0) == 0 or sc["mode"] in ("dropped", "errors") else 0
         for k, n in created.items():
-            pairs.append([n, dne, nbind, base])
+            # accountDoesNotExist answers about THIS key (a key the CA was not asked to forget gets no allowance)
+            pairs.append([n, dne.get(k, 0) + dne_any, nbind, base])
     v = vlib.model([{"op": "c12_judge", "tasks": tasks, "events": events, "all_returned": res["all_returned"],
                      "pairs": pairs, "nonces": nonces}])[0]
     ctx.count("round:" + rnd["what"])
@@ -194,6 +392,9 @@ def judge_round(ctx, sc, rnd):
     ctx.count("attempts-failed", len(res["results"]) - ok_n)
     if rnd["what"] == "forgotten":
         ctx.count("re-registrations", sum(p[0] for p in pairs))
+    elif rnd["what"] in AMNESIA:
+        ctx.count("re-registrations:" + rnd["what"], sum(p[0] for p in pairs))
+        ctx.count("accountDoesNotExist:" + rnd["what"], sum(p[1] for p in pairs))
     if not v.get("holds"):
         why = [k for k in ("all_returned", "tasks_ok", "mutex_respected", "register_once_ok",
                            "register_once_from_start_ok", "nonces_distinct")
@@ -204,9 +405,52 @@ def judge_round(ctx, sc, rnd):
                          % (len(tasks) - len(res["results"]), len(tasks))),
                       dict(robj, verdict=v, results=res["results"], tasks=res["tasks"], events=events[:400],
                            pairs=pairs))
-    elif ok_n < len(tasks) and rnd["what"] in ("first", "forgotten", "first-with-binding") and sc["mode"] != "dropped":
-        # not a C12 clause, but a dead harness would hide everything
-        ctx.broke("harness", "attempts failed against a conforming CA", dict(robj, results=res["results"]))
+    else:
+        harness_clause(ctx, sc, rnd, res, robj)
+
+
+def plan_scenarios(rng, quick):
+    """The fixed sharing patterns in every mode first (quick tier: two per mode chosen by the seed, at most one of
+    them with 8 certificates), then seeded random patterns over the modes in turn; one of the first random ones has
+    a CA that never finishes validating."""
+    scs, per_mode = [], {}
+
+    def add(mode, corner=None, slow=False):
+        k = per_mode[mode] = per_mode.get(mode, -1) + 1
+        scs.append(build_scenario(rng, len(scs), mode, corner, k, slow))
+    names = sorted(CORNERS, key=lambda c: len(CORNERS[c]))      # the three small ones first
+    for mode in MODES:
+        first = rng.choice(names)
+        for corner in ([first, rng.choice([c for c in names[:3] if c != first])] if quick else names):
+            add(mode, corner)
+    off = rng.randrange(len(MODES)) if quick else 0
+    for i in range(6 if quick else 192):
+        add(MODES[(i + off) % len(MODES)], slow=i == (MODES[off] == "errors"))
+    return scs
+
+
+def count_inputs(ctx, sc):
+    ctx.count("pattern:" + (sc["corner"] or "random"))
+    ctx.count("mode+pattern:%s:%s" % (sc["mode"], sc["corner"] or "random"))
+    for c in sc["certs"]:
+        pre = sum(1 for i in c["identifiers"] if i["dns"] in sc["ca"][int(c["endpoint"][2:])]["prevalid"])
+        ctx.count("identifiers-per-certificate:%d" % len(c["identifiers"]))
+        ctx.count("authz:prevalid", pre)
+        ctx.count("authz:pending", len(c["identifiers"]) - pre)
+        ctx.count("certificate:authz-" + ("all-prevalid" if pre == len(c["identifiers"]) else "some-prevalid" if pre else
+                                          "none-prevalid"))
+    for o in sc["ca"]:
+        for k in ("rand_delay", "polls_before_valid", "order_polls_before_ready", "order_polls_before_valid"):
+            ctx.count("ca:%s:%d" % (k, o[k]))
+        if "nonce_on_get" in o:
+            ctx.count("errors:nonce_on_get:%s" % o["nonce_on_get"])
+        ctx.count("errors:rules", len(o.get("errors", [])))
+    if sc["mode"] != "staggered":
+        for ms in sc["stagger"]:
+            ctx.count("stagger_ms:%d" % ms)
+    ctx.count("slow-challenge-hook-ms:%s" % (sc["slow_hook"][1] if sc["slow_hook"] else "none"))
+    ctx.count("account-file-hooks:%s" % sc["acc_hooks"])
+    ctx.count("attempts-that-must-give-up", len(expected_failures(sc)))
 
 
 def run(ctx):
@@ -224,22 +468,20 @@ def run(ctx):
     root = os.path.join(vlib.BUILD, "scratch", "c12-%d" % os.getpid())
     shutil.rmtree(root, ignore_errors=True)
     try:
-        n = 18 if ctx.quick() else 400
-        modes = ["first", "forgotten", "changes", "dropped", "binding", "staggered"]
-        scs = [build_scenario(ctx.rng, i, modes[i % 6]) for i in range(n)]
-        for sc in scs:
-            if sc["mode"] == "staggered":      # everybody on ONE endpoint
-                sc["nep"] = 1
-                for c in sc["certs"]:
-                    c["endpoint"] = "ep0"
-        with concurrent.futures.ThreadPoolExecutor(max_workers=6) as ex:
-            all_rounds = list(ex.map(lambda sc: run_rounds(sc, root, helper), scs))
+        scs = plan_scenarios(ctx.rng, ctx.quick())
+        with concurrent.futures.ThreadPoolExecutor(max_workers=8) as ex:
+            # the longest scenarios (rounds x certificates) are started first
+            cost = {"binding": 4, "changes": 3, "amnesia": 4, "forgotten": 2}
+            order = sorted(range(len(scs)), key=lambda i: -scs[i]["ncert"] * cost.get(scs[i]["mode"], 1))
+            done = dict(zip(order, ex.map(lambda sc: run_rounds(sc, root, helper), [scs[i] for i in order])))
+            all_rounds = [done[i] for i in range(len(scs))]
         for sc, rounds in zip(scs, all_rounds):
             shared = len({c["account"] for c in sc["certs"]}) < sc["ncert"] or \
                 len({c["endpoint"] for c in sc["certs"]}) < sc["ncert"]
             ctx.case({k: sc[k] for k in ("mode", "certs", "threads", "delay")}, nontrivial=shared)
             ctx.count("mode:" + sc["mode"])
             ctx.count("certs:%d" % sc["ncert"])
+            count_inputs(ctx, sc)
             for rnd in rounds:
                 judge_round(ctx, sc, rnd)
         ctx.traces += sum(len(r) for r in all_rounds)
@@ -249,7 +491,7 @@ def run(ctx):
     finally:
         helper.close()
         shutil.rmtree(root, ignore_errors=True)
-    ctx.assumptions = ["an attempt that has not returned after 60 s against a CA answering within 25 ms is "
+    ctx.assumptions = ["an attempt that has not returned after 60 s against a CA answering within 80 ms is "
                        "counted as never returning"]
     return ctx.finish(**FINISH)
 
@@ -264,6 +506,7 @@ def replay(ctx):
     root = os.path.join(vlib.BUILD, "scratch", "c12-replay")
     shutil.rmtree(root, ignore_errors=True)
     sc = dict(obj["scenario"], contacts=["a@example.org"], key_type="ecdsa_p256")
+    sc.setdefault("corner", None)
     rounds = run_rounds(sc, root, helper)
     helper.close()
     n0 = len(ctx.violations)
